@@ -168,13 +168,13 @@ class Client(object):
         :returns: |Reply| object populated with the response.
 
         """
-        ehlo = Reply(command=b'EHLO')
-        ehlo.enhanced_status_code = False
-        self.reply_queue.append(ehlo)
-
         if not isinstance(ehlo_as, bytes):
             ehlo_as = ehlo_as.encode('ascii')
         command = b'EHLO '+ehlo_as
+
+        ehlo = Reply(command=b'EHLO')
+        ehlo.enhanced_status_code = False
+        self.reply_queue.append(ehlo)
         self.io.send_command(command)
 
         self._flush_pipeline()
@@ -192,13 +192,13 @@ class Client(object):
         :returns: |Reply| object populated with the response.
 
         """
-        helo = Reply(command=b'HELO')
-        helo.enhanced_status_code = False
-        self.reply_queue.append(helo)
-
         if not isinstance(helo_as, bytes):
             helo_as = helo_as.encode('ascii')
         command = b'HELO '+helo_as
+
+        helo = Reply(command=b'HELO')
+        helo.enhanced_status_code = False
+        self.reply_queue.append(helo)
         self.io.send_command(command)
 
         self._flush_pipeline()
@@ -294,15 +294,15 @@ class Client(object):
                   not support PIPELINING.
 
         """
-        mailfrom = Reply(command=b'MAIL')
-        self.reply_queue.append(mailfrom)
-
         command = b''.join((b'MAIL FROM:<', self._encode(address), b'>'))
         if data_size is not None and 'SIZE' in self.extensions:
             command += b' SIZE='+self._encode(str(data_size))
         if auth is not None and 'AUTH' in self.extensions:
             authed = b'<>' if auth is False else self._xtext(auth)
             command += b' AUTH=' + authed
+
+        mailfrom = Reply(command=b'MAIL')
+        self.reply_queue.append(mailfrom)
         self.io.send_command(command)
 
         if 'PIPELINING' not in self.extensions:
@@ -322,10 +322,10 @@ class Client(object):
                   not support PIPELINING.
 
         """
+        command = b''.join((b'RCPT TO:<', self._encode(address), b'>'))
+
         rcptto = Reply(command=b'RCPT')
         self.reply_queue.append(rcptto)
-
-        command = b''.join((b'RCPT TO:<', self._encode(address), b'>'))
         self.io.send_command(command)
 
         if 'PIPELINING' not in self.extensions:
@@ -429,13 +429,13 @@ class LmtpClient(Client):
         raise NotImplementedError()
 
     def lhlo(self, lhlo_as):
-        lhlo = Reply(command=b'LHLO')
-        lhlo.enhanced_status_code = False
-        self.reply_queue.append(lhlo)
-
         if not isinstance(lhlo_as, bytes):
             lhlo_as = lhlo_as.encode('ascii')
         command = b'LHLO '+lhlo_as
+
+        lhlo = Reply(command=b'LHLO')
+        lhlo.enhanced_status_code = False
+        self.reply_queue.append(lhlo)
         self.io.send_command(command)
 
         self._flush_pipeline()
